@@ -99,4 +99,11 @@ def CaseMap.ofTable (t : List CaseEntry) : CaseMap where
   toLower c := match lookupEntry t c with | some e => e.lower | none => [c]
   sigmaClass c := match lookupEntry t c with | some e => e.cls | none => .other
 
+/-- ASCII from the model (`CaseMap.ascii`), every other char from `t`: the instance the
+    correspondence run builds from the std tables it observes for the non-ASCII chars of a case. -/
+def CaseMap.withAscii (t : CaseMap) : CaseMap where
+  toUpper c := if c < 128 then CaseMap.ascii.toUpper c else t.toUpper c
+  toLower c := if c < 128 then CaseMap.ascii.toLower c else t.toLower c
+  sigmaClass c := if c < 128 then CaseMap.ascii.sigmaClass c else t.sigmaClass c
+
 end Str
